@@ -82,7 +82,8 @@ type simSource struct {
 	deadline    time.Time
 	notify      chan struct{}
 	closes      int
-	useAfter    int // operations after Close
+	useAfter    int // operations after Close, and Closes underneath an operation that was still executing
+	inOp        int // Reads executing right now
 	faults      *faultPlan
 	applyFilter bool
 	vm          *bpf.VM
@@ -171,9 +172,15 @@ func (s *simSource) Read(buf []byte) (int, error) {
 		s.useAfter++
 	}
 	s.reads++
+	s.inOp++
 	cb := s.onFirstRead
 	s.onFirstRead = nil
 	s.mu.Unlock()
+	defer func() {
+		s.mu.Lock()
+		s.inOp--
+		s.mu.Unlock()
+	}()
 	if cb != nil {
 		cb()
 	}
@@ -232,6 +239,10 @@ func (s *simSource) Read(buf []byte) (int, error) {
 func (s *simSource) Close() error {
 	s.mu.Lock()
 	s.closes++
+	if s.inOp > 0 {
+		// the handle is closed while a Read the run started is still executing: that Read uses a closed handle
+		s.useAfter++
+	}
 	s.mu.Unlock()
 	s.poke()
 	if err, _ := s.faults.hit("SourceClose"); err != nil {
@@ -300,6 +311,7 @@ type simSink struct {
 	log      []outPkt
 	closes   int
 	useAfter int
+	inOp     int // WriteTos executing right now
 	faults   *faultPlan
 	onWrite  func(p outPkt)
 	// the packet is on the wire when WriteTo is entered; the call itself returns this much later (a slow socket)
@@ -320,7 +332,13 @@ func (s *simSink) WriteTo(buf []byte, addr netip.AddrPort) error {
 	if s.closes > 0 {
 		s.useAfter++
 	}
+	s.inOp++
 	s.mu.Unlock()
+	defer func() {
+		s.mu.Lock()
+		s.inOp--
+		s.mu.Unlock()
+	}()
 	if err, _ := s.faults.hit("WriteTo"); err != nil {
 		return err
 	}
@@ -349,6 +367,9 @@ func (s *simSink) WriteTo(buf []byte, addr netip.AddrPort) error {
 func (s *simSink) Close() error {
 	s.mu.Lock()
 	s.closes++
+	if s.inOp > 0 {
+		s.useAfter++
+	}
 	s.mu.Unlock()
 	if err, _ := s.faults.hit("SinkClose"); err != nil {
 		return err
